@@ -251,7 +251,7 @@ def gen(rng, tier):
 
 
 ODD = ["blank", "under", "caseless", "nested", "embedded", "ifaces", "funcs", "allunexp", "sliceodd", "mapodd", "ptrnested",
-       "unpackNoResult", "unpackNoParam", "unpackOther", "unpackHolder"]
+       "unpackNoResult", "unpackNoParam", "unpackOther", "unpackHolder", "unpackIfaces", "unpackHeld"]
 
 
 def odd_cases(rng, tier):
@@ -261,7 +261,8 @@ def odd_cases(rng, tier):
             M([("in", M([("a", U(1)), ("b", S("y"))])), ("l", A([M([("name", S("q"))]), M([("name", S("r"))])])), ("m", M([("k", M([("exported", U(1))]))])),
                ("p", M([("a", U(2))])), ("q", A([M([("name", S("a"))]), M([("name", S("b"))])]))]),
             M([("r", S("text")), ("s", U(1)), ("e", M([("z", U(1))]))]), M([("_cache", S("c")), ("_", U(1)), ("名前", S("n")), ("y", U(1)), ("oddinner", M([("y", U(1))]))]),
-            A([M([("a", U(1))]), M([("b", S("z"))])]), M([("k1", M([("name", S("v"))])), ("k2", M([]))]), M([("a", U(0))]), M([("f", U(1)), ("c", U(2)), ("a", U(5))]),
+            A([M([("a", U(1))]), M([("b", S("z"))])]), M([("k1", M([("name", S("v"))])), ("k2", M([]))]), M([("a", U(0))]),
+            M([("y", U(5))]), M([("i", U(6)), ("a", U(1))]), M([("m", M([("k", U(7))]))]), M([("l", A([U(8)]))]), M([("y", M([("z", U(1))])), ("m", M([("k1", S("s")), ("k9", U(1))]))]), M([("f", U(1)), ("c", U(2)), ("a", U(5))]),
             M([("x", M([("a", U(1))])), ("y", M([("a", U(2))])), ("m", M([("k", M([("a", U(3))]))])), ("n", U(4)), ("l", A([M([("a", U(5))])]))])]
     for nm in ODD:
         for src in srcs:
@@ -326,6 +327,8 @@ def wf_data(d):
 def fix_candidate(cand, base):
     if cand.get("k") == "rectarget":
         return cand if wf_data(cand.get("from")) and isinstance(cand.get("from"), dict) and "m" in cand["from"] else None
+    if cand.get("k") == "oddtarget":
+        return cand if wf_data(cand.get("from")) and cand.get("name") == base.get("name") else None
     if cand.get("k") == "forest":
         ops = cand.get("ops")
         if not isinstance(ops, list) or not all(isinstance(o, dict) and "op" in o for o in ops):
